@@ -426,16 +426,21 @@ func (sc *c13Scenario) restart(ev *c13Evaluated) {
 	sj, _ := json.Marshal(spec)
 	logf := filepath.Join(sc.dir, "restart", name+".log")
 	var out c13ChildResult
-	for attempt := 0; attempt < 4; attempt++ {
+	for attempt := 0; attempt < 12; attempt++ {
 		out = c13StartRestartChild(string(sj), logf)
 		if out.state == "daemon-error" && strings.Contains(out.msg, "address already in use") {
 			out.stop()
-			time.Sleep(700 * time.Millisecond)
+			time.Sleep(time.Second)
 			continue
 		}
 		break
 	}
 	defer out.stop()
+	if out.state == "daemon-error" && strings.Contains(out.msg, "address already in use") {
+		// the previous occupant of the victim's ports (the stopped daemon or the previous restart) has not let go yet
+		run.Inconclusive(fmt.Sprintf("restart of image %s (%s): the victim's ports were still in use after 12 s", name, ev.label))
+		return
+	}
 	run.Count("restarts", 1)
 	run.Seen("restarted_labels", ev.label)
 	switch out.state {
